@@ -72,6 +72,7 @@
           (cond
            ((null? (cdr tail))
             (set-cdr! head '())
+            (list-queue-last-set! list-queue head)
             (car tail))
            (else
             (lp tail (cdr tail))))))))
